@@ -359,6 +359,44 @@ theorem C14_intern_keeps (t : Tab) (next : Nat) (v : List Nat) (h : ValuesDistin
     simp only [lookupVal, Option.map_eq_none_iff, List.find?_eq_none] at hn
     exact hn a ha (by simp only [beq_iff_eq]; exact heq.symm)
 
+/-! ### every union costs a table entry: the rebuild loop's measure -/
+
+theorem insertMerge_len (t : Tab) (id : Nat) (v : List Nat) :
+    (insertMerge t id v).1.length + (insertMerge t id v).2.length ≤ t.length + 1 := by
+  induction t with
+  | nil => simp [insertMerge]
+  | cons hd t ih =>
+    obtain ⟨id', v'⟩ := hd
+    unfold insertMerge
+    split
+    · split <;> simp
+    · simp only [List.length_cons]; omega
+
+theorem foldl_pass_len (find : Nat → Nat) (l : Tab) : ∀ acc : Tab × List (Nat × Nat),
+    (l.foldl (passStep find) acc).1.length + (l.foldl (passStep find) acc).2.length
+      ≤ acc.1.length + acc.2.length + l.length := by
+  induction l with
+  | nil => intro acc; simp
+  | cons x l ih =>
+    intro acc
+    simp only [List.foldl_cons, List.length_cons]
+    have h1 := ih (passStep find acc x)
+    have h2 := insertMerge_len acc.1 x.1 (x.2.map find)
+    have h3 : (passStep find acc x).1.length + (passStep find acc x).2.length
+        ≤ acc.1.length + acc.2.length + 1 := by
+      unfold passStep
+      simp only [List.length_append]
+      omega
+    omega
+
+/-- every union a pass asks for costs one table entry: the table after the pass plus the unions
+emitted fit in the table before.  A pass that emitted a union has strictly shrunk the table, so
+the loop "rebuild while something merged" ends within `t.length` passes -/
+theorem C14_rebuild_measure (find : Nat → Nat) (t : Tab) :
+    (rebuildPass find t).1.length + (rebuildPass find t).2.length ≤ t.length := by
+  have := foldl_pass_len find t ([], [])
+  simpa [rebuildPass] using this
+
 /-! ### ids handed out by `register_val` are injective -/
 
 /-- ids are pairwise different and below the counter -/
